@@ -7,6 +7,13 @@ HERE = os.path.dirname(os.path.dirname(os.path.abspath(__file__)))
 
 # id -> (engine, technique, level text, level note, design ref)
 CHECKS = {
+    "C09": ("P2S+RX+XH", "AST->z3 execution of the real sequence builder (symbolic color ints/bools), reference SGR interpreter forking on the same solver, "
+            "z3 regex inclusion against the live strip pattern; CrossHair enumeration through the real ColorFmt/ColorBytes/CHText objects",
+            "bounded model checking: for ALL int color codes / (r,g,b) components / gray shades and all effect combinations, every path of the real source is "
+            "discharged by z3 (accept/reject contract, terminal state after prefix/suffix, membership of the emitted language in the strip pattern, self-delimiting lemma); "
+            "end-to-end object behaviour enumerated over boundary values",
+            "reference SGR interpreter is the terminal model; str(n) over-approximated by canonical decimals in regex queries (sound for inclusion); re.sub completeness assumed",
+            "DESIGN.md 3/C09"),
     "C19": ("XH", "CrossHair-driven exhaustive enumeration (z3 choice variables) of all parent declarations over N commands; real argparse-based code executed per graph",
             "bounded exhaustive exploration with an exhaustion certificate: every acyclic parent declaration over N<=4 (quick) / N<=5 (thorough) commands, every option/command pair checked against the transitive-closure oracle",
             "structural property: the solver only enumerates; argparse (stdlib) trusted; stderr captured",
@@ -65,6 +72,8 @@ def main():
         "engines": [
             {"name": "XH", "path": "vf/xh.py", "serves_properties": [p for p in ALL if p in CHECKS and "XH" in CHECKS[p][0]],
              "kind_free_text": "CrossHair 0.0.110 used as a library: symbolic execution of the real Python functions, z3 per path, own path loop with exhaustion certificate"},
+            {"name": "RX", "path": "vf/rx.py", "serves_properties": [p for p in ALL if p in CHECKS and "RX" in CHECKS[p][0]],
+             "kind_free_text": "re pattern (parsed by the stdlib's own parser) -> z3 regular expression, language inclusion queries"},
             {"name": "P2S", "path": "vf/p2s.py", "serves_properties": [p for p in ALL if p in CHECKS and "P2S" in CHECKS[p][0]],
              "kind_free_text": "Python-AST -> z3 forking symbolic interpreter for leaf kernels (source re-read with inspect on every run)"},
         ],
